@@ -17,7 +17,7 @@ int snoopy_filtering_check_chain(char const * const filterChain);
 
 #define MAXT 64
 static struct { long pid; vbytes content; } tab[MAXT];
-static int ntab, active;
+static int ntab, active, threaded;
 static long syn_self, syn_ppid;
 static long opened[256]; static int nopened;
 
@@ -37,7 +37,7 @@ static int stat_path(const char *path, long *pid) {
     *pid = v; return 1;
 }
 static int serve(long pid) {
-    if (nopened < 256) opened[nopened++] = pid;
+    if (!threaded && nopened < 256) opened[nopened++] = pid;
     for (int i = 0; i < ntab; i++) if (tab[i].pid == pid) {
         int fd = memfd_create("stat", 0);
         if (fd < 0) { perror("memfd_create"); _exit(3); }
@@ -65,12 +65,37 @@ int __wrap_open64(const char *path, int flags, ...) {
 pid_t __wrap_getppid(void) { return active ? (pid_t)syn_ppid : __real_getppid(); }
 pid_t __wrap_getpid(void) { return active ? (pid_t)syn_self : __real_getpid(); }
 
+/* one call: direct, or as the chain walker makes it ("exclude_spawns_of:<arg>[;exclude_spawns_of:<arg2>]") */
+static int call_filter(int via_chain, vbytes arg, vbytes *arg2) {
+    static const char pre[] = "exclude_spawns_of:";
+    size_t pl = sizeof pre - 1, off = via_chain ? pl : 0, n2 = arg2 ? 1 + pl + arg2->n : 0;
+    /* exact-size heap copy of the argument so that ASan sees any overread */
+    char *a = malloc(off + arg.n + n2 + 1); memcpy(a, pre, off); memcpy(a + off, arg.p, arg.n + 1);
+    if (arg2) { a[off + arg.n] = ';'; memcpy(a + off + arg.n + 1, pre, pl); memcpy(a + off + arg.n + 1 + pl, arg2->p, arg2->n + 1); }
+    int r = via_chain ? snoopy_filtering_check_chain(a) : snoopy_filter_exclude_spawns_of(a);
+    free(a);
+    return r;
+}
+static const char *vname(int r) { return r == SNOOPY_FILTER_DROP ? "drop" : r == SNOOPY_FILTER_PASS ? "pass" : "other"; }
+
+#include <pthread.h>
+struct tjob { vbytes arg; int rounds; int first; int mixed; };
+static void *tworker(void *x) {
+    struct tjob *j = x;
+    for (int k = 0; k < j->rounds; k++) {
+        int r = call_filter(0, j->arg, 0);
+        if (k == 0) j->first = r; else if (r != j->first) j->mixed = 1;
+    }
+    return 0;
+}
+
 static void handle(int nf, char **f, FILE *out) {
-    int via_chain = !strcmp(f[0], "cfilter");        /* the same call made by the filter chain walker: "exclude_spawns_of:<arg>" */
-    if ((!strcmp(f[0], "filter") || via_chain) && (nf == 5 || nf == 6)) {   /* a 6th field (the generator's abstract table) is for the spec only */
-        vbytes arg = parse_bytes(f[1]);
+    /* filter / cfilter (through the chain walker) / filter0, cfilter0 (descriptor 0 closed during the call) /
+       cfilter2 <arg> = "<hex1>+<hex2>" (two chain elements) / tfilter <arg> = "<hex>;<hex>;..." (one thread per argument, concurrently) */
+    int via_chain = !strncmp(f[0], "cfilter", 7), fd0 = f[0][strlen(f[0]) - 1] == '0', two = !strcmp(f[0], "cfilter2"), thr = !strcmp(f[0], "tfilter");
+    if ((!strcmp(f[0], "filter") || !strcmp(f[0], "filter0") || !strcmp(f[0], "cfilter") || !strcmp(f[0], "cfilter0") || two || thr) && (nf == 5 || nf == 6)) {
         syn_self = strtol(f[2], 0, 10); syn_ppid = strtol(f[3], 0, 10);
-        ntab = 0; nopened = 0;
+        ntab = 0; nopened = 0; threaded = thr;
         if (strcmp(f[4], "[]")) {
             char *save = 0;
             for (char *e = strtok_r(f[4], ";", &save); e && ntab < MAXT; e = strtok_r(0, ";", &save)) {
@@ -78,15 +103,28 @@ static void handle(int nf, char **f, FILE *out) {
                 *eq = 0; tab[ntab].pid = strtol(e, 0, 10); tab[ntab].content = parse_bytes(eq + 1); ntab++;
             }
         }
-        /* exact-size heap copy of the argument so that ASan sees any overread */
-        static const char pre[] = "exclude_spawns_of:";
-        size_t off = via_chain ? sizeof pre - 1 : 0;
-        char *a = malloc(off + arg.n + 1); memcpy(a, pre, off); memcpy(a + off, arg.p, arg.n + 1);
+        if (thr) {
+            struct tjob jobs[8]; pthread_t th[8]; int n = 0; char *save = 0;
+            for (char *e = strtok_r(f[1], ";", &save); e && n < 8; e = strtok_r(0, ";", &save)) { jobs[n].arg = parse_bytes(e); jobs[n].rounds = 300; jobs[n].first = -1; jobs[n].mixed = 0; n++; }
+            active = 1;
+            for (int i = 0; i < n; i++) pthread_create(&th[i], 0, tworker, &jobs[i]);
+            for (int i = 0; i < n; i++) pthread_join(th[i], 0);
+            active = 0; threaded = 0;
+            fprintf(out, "ok\t");
+            for (int i = 0; i < n; i++) fprintf(out, "%s%s", i ? "," : "", jobs[i].mixed ? "mixed" : vname(jobs[i].first));
+            return;
+        }
+        vbytes arg, arg2; char *plus = two ? strchr(f[1], '+') : 0;
+        if (two && !plus) { fprintf(out, "driver-error:cfilter2"); return; }
+        if (plus) { *plus = 0; arg2 = parse_bytes(plus + 1); }
+        arg = parse_bytes(f[1]);
+        int saved = -1;
+        if (fd0) { saved = dup(0); close(0); }
         active = 1;
-        int r = via_chain ? snoopy_filtering_check_chain(a) : snoopy_filter_exclude_spawns_of(a);
+        int r = call_filter(via_chain, arg, plus ? &arg2 : 0);
         active = 0;
-        free(a);
-        fprintf(out, "ok\t%s\t", r == SNOOPY_FILTER_DROP ? "drop" : r == SNOOPY_FILTER_PASS ? "pass" : "other");
+        if (fd0 && saved >= 0) { dup2(saved, 0); close(saved); }
+        fprintf(out, "ok\t%s\t", vname(r));
         if (!nopened) fputc('-', out);
         for (int i = 0; i < nopened; i++) fprintf(out, "%s%ld", i ? "," : "", opened[i]);
     } else fprintf(out, "driver-error:bad-case");
